@@ -26,22 +26,15 @@ PROPS["C10"] = {
     "outside": "NaN/Inf values inside the functions (harness B; harness A passes unconstrained values through sum); more than 3 values per bucket and more than 3 (4) events; %f rendering of the value (the engine compares the float64 handed to fmt.Sprintf, the native replay compares to 1e-6); the real wall-clock ticker clock.AlignedTick; clocks that go backwards and now < Wait (unsigned wrap-around of now-Wait); Interval 0 (C14); the snapshot and shutdown branches of run(); math.Pow(x,2) is modelled as x*x",
     "assumptions": ["non-decreasing harness clock, now >= Wait", "a late point (bucket start <= now-Wait) for a bucket that was not yet emitted may either contribute to the still open bucket or be counted as too old - exactly one of the two (DESIGN.md ghost model)", "derive emits no line for a bucket with fewer than two distinct timestamps (the property text says one line per bucket; the derivative is undefined there - flagged, not counted as a violation)", "the timestamp range tracker (statistics only) has already seen both extreme timestamps, so its comparisons do not fork"],
     "groups": [
-        # 3 events, split by the first event so that the parts run in parallel
+        # 3 events, split by the first two events so that the parts run in parallel
+    ] + [
         {"pkg": "aggregator", "hdir": "aggregator", "opts": _C10_HIST_OPTS,
-         "specs": [_c10_hist("sum/3ev/first=tick", events="xxx", first="0"),
-                   _c10_hist("max/3ev/first=tick", "thorough", events="xxx", first="0", fun="max"),
-                   _c10_hist("derive/3ev/first=tick", "thorough", events="xxx", first="0", fun="derive"),
-                   _c10_hist("percentiles/3ev/first=tick", "thorough", events="xxx", first="0", fun="percentiles")]},
-        {"pkg": "aggregator", "hdir": "aggregator", "opts": _C10_HIST_OPTS,
-         "specs": [_c10_hist("sum/3ev/first=a1", events="xxx", first="1"),
-                   _c10_hist("max/3ev/first=a1", "thorough", events="xxx", first="1", fun="max"),
-                   _c10_hist("derive/3ev/first=a1", "thorough", events="xxx", first="1", fun="derive"),
-                   _c10_hist("percentiles/3ev/first=a1", "thorough", events="xxx", first="1", fun="percentiles")]},
-        {"pkg": "aggregator", "hdir": "aggregator", "opts": _C10_HIST_OPTS,
-         "specs": [_c10_hist("sum/3ev/first=b1", events="xxx", first="2"),
-                   _c10_hist("max/3ev/first=b1", "thorough", events="xxx", first="2", fun="max"),
-                   _c10_hist("derive/3ev/first=b1", "thorough", events="xxx", first="2", fun="derive"),
-                   _c10_hist("percentiles/3ev/first=b1", "thorough", events="xxx", first="2", fun="percentiles")]},
+         "specs": [_c10_hist("sum/3ev/first=%s" % n, events="xxx", first=f) for f, n in part] +
+                  [_c10_hist("%s/3ev/first=%s" % (fun, n), "thorough", events="xxx", first=f, fun=fun)
+                   for fun in ["max", "derive", "percentiles"] for f, n in part]}
+        for part in [[("1,1", "a1,a1")], [("1,2", "a1,b1")], [("2,1", "b1,a1")], [("2,2", "b1,b1")],
+                     [("0", "tick"), ("1,0", "a1,tick"), ("2,0", "b1,tick")]]
+    ] + [
         # 2 events, every function
         {"pkg": "aggregator", "hdir": "aggregator", "opts": _C10_HIST_OPTS,
          "specs": [_c10_hist(f + "/2ev", fun=f) for f in _C10_FUNS[:5]] +
@@ -61,8 +54,6 @@ PROPS["C10"] = {
                    _c10_hist("sum/4ev/1name", "thorough", events="xxxx", names="x")]},
         # the functions in isolation
         {"pkg": "aggregator", "hdir": "aggregator", "opts": _C10_FUNC_OPTS,
-         "specs": [_c10_func(f) for f in _C10_FUNS if f != "stdev"] + [_c10_func("stdev", extra="1")]},
-        {"pkg": "aggregator", "hdir": "aggregator", "opts": _C10_FUNC_OPTS,
-         "specs": [_c10_func("percentiles", extra="1")]},
+         "specs": [_c10_func(f) for f in _C10_FUNS if f != "stdev"] + [_c10_func("stdev", extra="1"), _c10_func("percentiles", extra="1")]},
     ],
 }
